@@ -12,7 +12,10 @@ if ! git -C $W apply "$patch" 2>$S/apply.err; then echo "patch does not apply"; 
 cp -r /verif/harness $S/harness
 sed -i "s#=> /repo#=> $W#" $S/harness/go.mod
 cd /verif
-REPO_DIR=$W HARNESS_DIR=$S/harness GOSYM_EVIDENCE_DIR=$S/evidence ./check "$id" --tier "$tier" > $S/log 2>&1
+# stop exploring once a few counterexamples exist (they are then confirmed natively as usual); not for the checks whose
+# clean-tree runs already meet known findings (C11, C16), where the first violations may be the known ones
+stop=6; case "$id" in C11|C16) stop=0;; esac
+REPO_DIR=$W HARNESS_DIR=$S/harness GOSYM_EVIDENCE_DIR=$S/evidence GOSYM_STOP_AFTER_VIOLATIONS=${MUTEST_STOP:-$stop} ./check "$id" --tier "$tier" > $S/log 2>&1
 rc=$?
 echo "rc=$rc"; grep -c "^VIOLATION" $S/log | sed 's/^/violations=/'
 grep -E "^  (panic|assert|monitor|budget)|^CHECK-BROKEN|^ENGINE|^INCOMPLETE|^C[0-9]+ (quick|thorough)" $S/log | head -${MUTEST_LINES:-8}
